@@ -63,11 +63,14 @@ def make_history(base, cfg, r, n_commits=None, kind=None):
     h = History()
     h.cfg = cfg
     kind = kind or r.choice(["plain", "plain", "spill", "overflow_inplace", "ddl", "checkpoint_restart",
-                             "passive_checkpoint", "grow_shrink", "header_pragmas"])
+                             "passive_checkpoint", "grow_shrink", "header_pragmas", "freelist_drain"])
     h.kind = kind
     ps = cfg["page_size"]
     if kind == "rootmove":
         cfg = dict(cfg, auto_vacuum=1)
+        h.cfg = cfg
+    if kind == "freelist_drain":
+        cfg = dict(cfg, auto_vacuum=0)
         h.cfg = cfg
     con = F.connect(work, dict(cfg, journal_mode="WAL"))
     con.execute("PRAGMA wal_autocheckpoint=0")
@@ -103,6 +106,8 @@ def make_history(base, cfg, r, n_commits=None, kind=None):
         con.execute("CREATE INDEX i0 ON t0 (c1)")
         fresh_snap()
     base_rows = r.choice([0, 5, 40, 120])
+    if kind == "freelist_drain":
+        base_rows = r.choice([40, 120])
     if kind == "rootmove":
         base_rows = r.choice([1, 2, 3, 40])      # a single-page table: after the move none of its old pages is rewritten
 
@@ -183,6 +188,17 @@ def make_history(base, cfg, r, n_commits=None, kind=None):
                     con.execute(f"DROP TABLE {victims[0]}")
                 else:
                     ins(3)
+        elif op == "freelist_drain":
+            # a freelist that appears inside the log and is later used up completely (trunk pointer N -> 0)
+            if k % 3 == 0:
+                con.execute("DELETE FROM t0")
+            elif k % 3 == 1:
+                while True:
+                    ins(20, big=True)
+                    if con.execute("PRAGMA freelist_count").fetchone()[0] == 0:
+                        break
+            else:
+                ins(r.randint(1, 5))
         elif op == "rootmove":
             if k == 0:
                 con.execute("DROP TABLE victim")
@@ -197,8 +213,14 @@ def make_history(base, cfg, r, n_commits=None, kind=None):
                 else:
                     con.execute("DELETE FROM t0 WHERE rowid=?", (r.choice(ids),))
         elif op == "header_pragmas":
-            which = r.choice(["user_version", "application_id", "insert", "default_cache_size"])
-            if which == "user_version":
+            which = r.choice(["user_version", "application_id", "insert", "default_cache_size"]
+                             + (["auto_vacuum_toggle"] * 3 if cfg["auto_vacuum"] else []))
+            if which == "auto_vacuum_toggle":
+                # FULL <-> INCREMENTAL needs no VACUUM: only the incremental-vacuum flag of the header changes
+                cur = con.execute("PRAGMA auto_vacuum").fetchone()[0]
+                con.execute(f"PRAGMA auto_vacuum={2 if cur == 1 else 1}")
+                ins(1)
+            elif which == "user_version":
                 con.execute(f"PRAGMA user_version={r.randint(1, 10 ** 6)}")
             elif which == "application_id":
                 con.execute(f"PRAGMA application_id={r.randint(1, 10 ** 6)}")
